@@ -226,8 +226,127 @@ def execute(ctx, case):
   ctx.note(case, nontrivial=nt, classes=sorted(classes) + ['sections=%d' % len(case['schemas'])])
 
 
+# ---- reload while the writer is creating (the 60 s reload task runs on the reactor thread) ------------------
+@st.composite
+def race_cases(draw):
+  old = draw(cases())
+  secs = [dict(s_) for s_ in old['schemas']]
+  new_secs = draw(st.permutations(secs))
+  if draw(st.booleans()) and len(new_secs) > 1:
+    new_secs = new_secs[1:]
+  if draw(st.booleans()):
+    extra = draw(schema_sections())[0]
+    extra['name'] = 'inserted'
+    new_secs = [extra] + list(new_secs)
+  new_secs = [dict(s_) for s_ in new_secs]
+  for s_ in new_secs:
+    if s_['kind'] == 'full' and draw(st.booleans()):
+      r = draw(retention())
+      s_['rets'], s_['archives'] = [r[0]], [list(r[1])]
+  aggs = [dict(a) for a in old['aggs']]
+  new_aggs = [dict(a) for a in draw(st.permutations(aggs))]
+  for a in new_aggs:
+    if draw(st.booleans()):
+      a['xff'] = draw(st.sampled_from(['0', '0.5', '1', '0.25']))
+      a['method'] = draw(st.sampled_from(METHODS))
+  from . import c02
+  return {'kind': 'reload-race', 'schemas': old['schemas'], 'aggs': old['aggs'], 'names': old['names'][:2],
+          'new_schemas': new_secs, 'new_aggs': new_aggs, 'agg_file_missing': False,
+          'switches': draw(c02.switch_lists(max_switches=6, max_gap=40)), 'first': draw(st.integers(0, 1))}
+
+
+def execute_race(ctx, case):
+  from ..sched import Sched
+  b = env.bootstrap()
+  w = prepare(b)
+  env.reset(MAX_UPDATES_PER_SECOND=float('inf'), MAX_CREATES_PER_MINUTE=float('inf'), LOG_CREATES=False, LOG_UPDATES=False,
+            ENABLE_TAGS=False)
+  db = memdb.new_db()
+  b.state.database = db
+  sp = os.path.join(b.conf_dir, 'storage-schemas.conf')
+  ap = os.path.join(b.conf_dir, 'storage-aggregation.conf')
+  old = {'schemas': case['schemas'], 'aggs': case['aggs'], 'agg_file_missing': False}
+  new = {'schemas': case['new_schemas'], 'aggs': case['new_aggs'], 'agg_file_missing': False}
+  with open(sp, 'w') as f:
+    f.write(render_schemas(old['schemas']))
+  with open(ap, 'w') as f:
+    f.write(render_aggs(old['aggs']))
+  w.reloadStorageSchemas()
+  w.reloadAggregationSchemas()
+  cache = b.cache.MetricCache()
+  for i, name in enumerate(case['names']):
+    cache.store(name, (1500000000 + i, float(i)))
+  with open(sp, 'w') as f:
+    f.write(render_schemas(new['schemas']))
+  with open(ap, 'w') as f:
+    f.write(render_aggs(new['aggs']))
+  # preemption points: every line of writer.py (the loaders themselves run atomically)
+  sched = Sched(case['switches'], [w.__file__], max_steps=200000)
+  errors = []
+
+  def reactor_thread():
+    w.reloadStorageSchemas()
+    w.reloadAggregationSchemas()
+
+  def writer_thread():
+    try:
+      w.writeCachedDataPoints()
+    except Exception as e:  # noqa
+      errors.append(e)
+  sched.spawn('reactor', reactor_thread)
+  sched.spawn('writer', writer_thread)
+  sched.run(case.get('first', 0))
+  if sched.aborted:
+    ctx.count('inconclusive: %s' % sched.aborted)
+    return
+  if errors or sched.threads[0].exc is not None:
+    e = errors[0] if errors else sched.threads[0].exc
+    ctx.fail('C19:raised-during-reload:%s' % type(e).__name__, 'reload concurrent with the create loop: %r' % (e,), case, 'reload')
+    return
+  creates = {c[2]: c[3] for c in db.calls if c[1] == 'create'}
+  for name in case['names']:
+    got = creates.get(name)
+    if got is None:
+      ctx.fail('C19:not-created', 'new metric %r was not created while the schema files were being reloaded' % name, case)
+      return
+    eo = expected(old, name)
+    en = expected(new, name)
+    g_rets = [tuple(r) for r in (got[0] or [])]
+    ok_rets = g_rets in (eo[0], en[0])
+
+    def same(x, y):
+      return (x is None and y is None) or (x is not None and y is not None and float(x) == float(y))
+    ok_agg = any(same(got[1], e[1]) and got[2] == e[2] for e in (eo, en))
+    if not (ok_rets and ok_agg):
+      ctx.fail('C19:reload-race-wrong-create-arguments',
+               'schema files reloaded while %r was being created: created with retentions=%r xff=%r method=%r, which is the '
+               'first match in neither the old files (%r, %r, %r) nor the new ones (%r, %r, %r)' % (
+                 name, g_rets, got[1], got[2], eo[0], eo[1], eo[2], en[0], en[1], en[2]), dict(case, names=[name]), 'reload')
+      return
+  ctx.note(case, nontrivial=len(sched.preemptions()) > 0 and any(expected(old, n)[0] != expected(new, n)[0] for n in case['names']),
+           classes=['reload during create loop'])
+
+
+_execute_plain = execute
+
+
+def execute(ctx, case):  # noqa: dispatch on the case kind
+  if case.get('kind') == 'reload-race':
+    return execute_race(ctx, case)
+  return _execute_plain(ctx, case)
+
+
+def execute_race_all_placements(ctx, case):
+  """for one pair of file generations: the reload lands at EVERY line of the writer's pass (one preemption,
+  writer first), instead of at a few random ones."""
+  for k in range(1, 16 + 14 * len(case['names'])):
+    execute_race(ctx, dict(case, switches=[[k, 1]], first=1))
+
+
 def run(ctx):
-  run_given(ctx, cases(), execute, ctx.scale(900, 4000), salt=1)
+  run_given(ctx, cases(), execute, ctx.scale(500, 4000), salt=1)
+  run_given(ctx, race_cases(), execute, ctx.scale(120, 1500), salt=2)
+  run_given(ctx, race_cases(), execute_race_all_placements, ctx.scale(30, 300), salt=3)
   if not ctx.quick:
     # every permutation of a base set of overlapping sections
     base = [
